@@ -40,16 +40,42 @@ func notFoundDiscipline(c *eng.Ctx, rule string) {
 		if exempt {
 			continue
 		}
-		isNotFound := func(r *ssa.Return) bool {
+		var isNotFoundIn func(g *ssa.Function, r *ssa.Return, depth int) bool
+		isNotFoundIn = func(g *ssa.Function, r *ssa.Return, depth int) bool {
 			rv := eng.RetVals(r)
+			gi := errResultIndex(g)
+			if gi < 0 || gi >= len(rv) {
+				return false
+			}
 			pa := eng.Path{Blocks: []*ssa.BasicBlock{r.Block()}}
-			for _, lf := range errorLeaves(pa, rv[ei]) {
+			for _, lf := range errorLeaves(pa, rv[gi]) {
 				if eng.IsGlobalLoad(lf, "db", "ErrNotFound") {
 					return true
+				}
+				// the error of a lookup helper of kv all of whose failures are ErrNotFound
+				if hc, _ := eng.TupleCall(lf); hc != nil && depth < 2 {
+					h := eng.Callee(&hc.Call)
+					if eng.IsHelper(g, h) && errResultIndex(h) >= 0 {
+						all, any := true, false
+						for _, hr := range eng.Returns(h) {
+							hv := eng.RetVals(hr)[errResultIndex(h)]
+							if eng.IsNilConst(eng.Origin(hv)) {
+								continue
+							}
+							any = true
+							if !isNotFoundIn(h, hr, depth+1) {
+								all = false
+							}
+						}
+						if all && any {
+							return true
+						}
+					}
 				}
 			}
 			return false
 		}
+		isNotFound := func(r *ssa.Return) bool { return isNotFoundIn(f, r, 0) }
 		eng.Instrs(f, func(in ssa.Instruction) {
 			ifi, ok := in.(*ssa.If)
 			if !ok {
@@ -71,6 +97,14 @@ func notFoundDiscipline(c *eng.Ctx, rule string) {
 							if _, isParam := eng.Origin(lk.Index).(*ssa.Parameter); isParam {
 								what = "requested version absent"
 							}
+						}
+					}
+				}
+				// the failure edge of a kv lookup helper that reports an absent secret
+				if v, isNil, isE := cond.ErrCheck(); isE && !isNil && what == "" {
+					if hc, _ := eng.TupleCall(v); hc != nil {
+						if h := eng.Callee(&hc.Call); eng.IsHelper(f, h) && recvIs(h, "db", "kv") && kvLookupHelper(h) {
+							what = "secret absent (reported by " + eng.FName(h) + ")"
 						}
 					}
 				}
@@ -98,4 +132,18 @@ func notFoundDiscipline(c *eng.Ctx, rule string) {
 	if n < 5 {
 		c.Undecided(rule, nil, 0, "absent-secret / absent-version edges in the kv accessors", "fewer than 5 found")
 	}
+}
+
+// kvLookupHelper: h reads kv.secrets and returns (record, error).
+func kvLookupHelper(h *ssa.Function) bool {
+	if h == nil || h.Blocks == nil || errResultIndex(h) < 0 {
+		return false
+	}
+	found := false
+	for _, m := range eng.MapOps(h) {
+		if m.SrcOK && isKVRole(curProg, m.Src, "secrets") && (m.Kind == "lookup" || m.Kind == "lookupok") {
+			found = true
+		}
+	}
+	return found
 }
